@@ -472,6 +472,25 @@ Definition run (ds : list decl) (ls : list link) : outcome * list event :=
   | None => instantiate cs (sinks_of ds) ls
   end.
 
+(* ---- histories that go on after a rejected link ---------------------------------------------------------------
+   link_arguments raises for a cycle-closing link BEFORE anything in the parser is changed (since /repo c1d0425); the caller
+   catches the ValueError and goes on: the rejected link is not part of the parser, later links are checked against the
+   accepted ones only.  Result: the accepted links in order, and the 0-based numbers of the rejected calls. *)
+Fixpoint add_links_cont_from (cs : list comp) (done todo : list link) (k : nat) : list link * list nat :=
+  match todo with
+  | [] => (done, [])
+  | l :: todo' =>
+      match inst_order cs (done ++ [l]) with
+      | Order _ => add_links_cont_from cs (done ++ [l]) todo' (S k)
+      | _ => let (a, r) := add_links_cont_from cs done todo' (S k) in (a, k :: r)
+      end
+  end.
+Definition add_links_cont (cs : list comp) (ls : list link) : list link * list nat := add_links_cont_from cs [] ls 0.
+
+Definition run_cont (ds : list decl) (ls : list link) : list nat * (outcome * list event) :=
+  let cs := components ds in
+  let (acc, r) := add_links_cont cs ls in (r, instantiate cs (sinks_of ds) acc).
+
 (* ---- the guard of the proved ordering theorem ---------------------------------------------- *)
 
 Definition edge_in (e : str * str) (es : list (str * str)) : bool :=
